@@ -3,9 +3,9 @@
    the range tables the harness dumps from Rust's own char methods. *)
 Require Extraction.
 Require Import ExtrOcamlBasic.
-Require Import Base Overlap Mask Tables_lexer Lexer Condense C02Wrappers C02Markdown.
+Require Import Base Overlap Mask Tables_lexer Lexer Condense C02Wrappers C02Markdown C02Inert.
 Extraction Language OCaml.
 Extraction "../ocaml/gen/c02_model.ml" mkuni lex_token plain_parse document_passes document_plain
   punct_from_char quote_chars punct_name currency_name suffix_name
   isolate_english collapse_identifiers dict_of document_plain_ie document_plain_ci
-  encode markdown_parse document_markdown md_contractb.
+  encode markdown_parse document_markdown md_contractb md_doc_class.
